@@ -607,6 +607,52 @@ def _num(v, what: str) -> int:
     return int(v)
 
 
+def _check_dsp(x):
+    # body-fld-dsp = "(" string SP body-fld-param ")" / nil
+    if x is None:
+        return
+    if not (isinstance(x, list) and len(x) == 2 and _is_nstring(x[0])
+            and x[0] is not None and not isinstance(x[0], list)):
+        raise ValueError('body-fld-dsp must be NIL or (string param-list), '
+                         'got %r' % (x,))
+    prm = x[1]
+    if not (prm is None or (isinstance(prm, list) and prm
+                            and len(prm) % 2 == 0
+                            and all(_is_nstring(y) and y is not None
+                                    and not isinstance(y, list)
+                                    for y in prm))):
+        raise ValueError('body-fld-dsp parameters must be NIL or string '
+                         'pairs, got %r' % (prm,))
+
+
+def _check_ext(ext, multipart: bool):
+    """body-ext-1part / body-ext-mpart (RFC 3501 section 9)."""
+    if not ext:
+        return
+    first = ext[0]
+    if multipart:
+        if not (first is None or (isinstance(first, list) and first
+                                  and len(first) % 2 == 0)):
+            raise ValueError('multipart body-fld-param must be NIL or '
+                             'string pairs, got %r' % (first,))
+    elif isinstance(first, list) or not _is_nstring(first):
+        raise ValueError('body-fld-md5 must be nstring, got %r' % (first,))
+    if len(ext) > 1:
+        _check_dsp(ext[1])
+    if len(ext) > 2:
+        lang = ext[2]
+        if isinstance(lang, list):
+            if not lang or not all(_is_nstring(y) and y is not None
+                                   and not isinstance(y, list) for y in lang):
+                raise ValueError('body-fld-lang list must hold strings')
+        elif not _is_nstring(lang):
+            raise ValueError('body-fld-lang must be nstring or list')
+    if len(ext) > 3:
+        if isinstance(ext[3], list) or not _is_nstring(ext[3]):
+            raise ValueError('body-fld-loc must be nstring, got %r'
+                             % (ext[3],))
+
+
 def body_parts(v, path: tuple = ()) -> dict:
     """Interpret a parsed BODY/BODYSTRUCTURE value.  Returns a dict
     {path(tuple of ints): info}; info has type, subtype, octets (for
@@ -625,6 +671,7 @@ def body_parts(v, path: tuple = ()) -> dict:
                      'children': n}
         for k in range(n):
             out.update(body_parts(v[k], path + (k + 1,)))
+        _check_ext(v[n + 1:], True)
         return out
     if len(v) < 7:
         raise ValueError('single part needs >= 7 fields, got %d' % len(v))
@@ -657,6 +704,7 @@ def body_parts(v, path: tuple = ()) -> dict:
             raise ValueError('text part needs a line count')
         info['lines'] = _num(v[7], 'lines')
         idx = 8
+    _check_ext(v[idx:], False)
     out[path] = info
     return out
 
